@@ -5,7 +5,7 @@ COQ_PROPS = ['Properties_C14']
 RULE = ('operation scripts over several count_min_sketch<int64_t> registers: configurations num_hashes 1..8 (and 255 once), '
         'num_buckets 3..64 incl. non-powers of two, refused configurations, integer and string items from a small universe '
         '(so that collisions and repeats are frequent), non-negative weights (a separate stream of cases mixes in negative '
-        'weights), merges of compatible/incompatible/self operands (every sixth case: operands agreeing on some but not all of num_hashes, num_buckets, seed, cell count — same cell count in another shape, transposed shape, other seed), queries for tracked and never-seen items, full cell dumps; '
+        'weights), serialize/deserialize points (bytes and stream) after which the restored sketch is used further, merges of compatible/incompatible/self operands (every sixth case: operands agreeing on some but not all of num_hashes, num_buckets, seed, cell count — same cell count in another shape, transposed shape, other seed), queries for tracked and never-seen items, full cell dumps; '
         'non-trivial = the case has at least one merge or at least 10 updates and one query')
 TRUSTED = ['row seeds (libstdc++ default_random_engine/uniform_int_distribution) are read from the object and passed to the model; '
            'their generation is not modelled',
@@ -65,8 +65,12 @@ def gen(rng, tier):
                 ops.append([3, r] + it); nq += 1
             elif k < (0.93 if shapes is None else 0.97):
                 ops.append([4, r, rng.randrange(nreg)]); nm += 1
-            else:
+            elif k < 0.985 or nreg >= 4:
                 ops.append([5, r])
+            else:
+                # serialization point: the restored sketch (same seed, same row seeds, same cells) replaces or joins the registers
+                tgt = rng.choice([r, nreg]); ops.append([6, r, tgt, rng.randrange(2)]); tags.add('roundtrip')
+                if tgt == nreg: nreg += 1
         for r in range(nreg):
             for it in universe[:6]:
                 ops.append([3, r] + it); nq += 1
@@ -85,6 +89,11 @@ def oracle(case, irecs, mrecs):
     for i, op in enumerate(case['ops']):
         if i >= len(irecs) or i >= len(mrecs):
             break
+        if op[0] == 1 and irecs[i].get('R') == [1]:
+            seeds = irecs[i].get('E') or []
+            if len(set(seeds)) != len(seeds):
+                # necessary for the confidence clause: rows must use different hash functions
+                fails.append(dict(sig='row_seeds_not_distinct', what='rows share a hash seed: %s' % seeds[:6], op_index=i))
         if op[0] != 3:
             continue
         R = irecs[i]['R']; S = mrecs[i].get('S'); F = irecs[i].get('F')
